@@ -1132,7 +1132,14 @@ fn case_tabs(rng: &mut Rng, w: &W, out: &mut impl Write) {
     writeln!(out, "N 0 {} {} {}", cols, rows, lim_tok(gen_limit(rng, w))).unwrap();
     let nops = rng.range(6, 24);
     for _ in 0..nops {
-        match rng.weighted(&[22, 10, 10, 28, 10, 10, 10]) {
+        match rng.weighted(&[22, 10, 10, 28, 10, 10, 10, 8]) {
+            7 => {
+                // tab movement from the wrap-pending position (one past the last column), where a
+                // stop in the last column lies BEFORE the cursor
+                let f = *rng.pick(&['Z', 'Z', 'I']);
+                writeln!(out, "S 0 {}", hex_encode(&format!("\u{1b}[{}G{}", cols, gen_char(rng)))).unwrap();
+                writeln!(out, "S 0 {}", hex_encode(&format!("\u{1b}[{}{}", rng.range(1, 3), f))).unwrap();
+            }
             0 => {
                 cols = *rng.pick(&widths);
                 writeln!(out, "R 0 {} {}", cols, rows).unwrap();
